@@ -143,6 +143,25 @@ Example C19_example_date_line :
   local_day 0 (-43200) <> utc_day 0 /\ local_day 36000 50400 <> utc_day 36000.
 Proof. exact local_date_differs. Qed.
 
+(* ---------------------------------------------- temporary directory *)
+
+(* The process environment's TMPDIR (unset, same file system, ANOTHER file
+   system, missing, not a directory) has no influence (Model/Cli: cli_run_env):
+   the footprint of a command is the telemetry tree only ... *)
+Theorem C19_tmpdir_independent : forall c now off tmp1 tmp2 t,
+  cli_run_env c now off tmp1 t = cli_run_env c now off tmp2 t.
+Proof. exact run_env_tmpdir_independent. Qed.
+Print Assumptions C19_tmpdir_independent.
+
+(* ... in particular a mode command that has to write succeeds and is read
+   back, wherever TMPDIR points. *)
+Theorem C19_mode_cmd_sets_any_tmpdir : forall m now off tmp t, in_instant_range now ->
+  fst (cli_read_mode t) <> mode_str m -> mode_is_dir t = false ->
+  snd (cli_run_env (CMode m) now off tmp t) = true /\
+  cli_read_mode (fst (cli_run_env (CMode m) now off tmp t)) = (mode_str m, Some (now / 86400)%Z).
+Proof. exact mode_cmd_sets_any_tmpdir. Qed.
+Print Assumptions C19_mode_cmd_sets_any_tmpdir.
+
 (* ------------------------------------------------------ no directory *)
 
 (* When os.UserConfigDir() fails the commands have no directory (the zero Dir):
